@@ -835,7 +835,6 @@ class OutputSchemaBuilder(
     ) -> TypeFactory[graphql.GraphQLOutputType]:
         raise TypeError("TypedDict are not supported in output schema")
 
-    @cache_type
     def _visited_union(
         self, results: Sequence[TypeFactory]
     ) -> TypeFactory[graphql.GraphQLOutputType]:
@@ -845,7 +844,18 @@ class OutputSchemaBuilder(
             types = [factory.raw_type for factory in results]
             if name is None:
                 name = self.union_name_factory([t.name for t in types])
-            return graphql.GraphQLUnionType(name, types, description=description)
+            # Same cache as `cache_type`, but using the computed name, and comparing
+            # alternatives types (factories are never equal)
+            key = (name, OutputSchemaBuilder._visited_union, description, None)
+            if key in self._cache_by_name:
+                tp, cached_types = self._cache_by_name[key]
+                if cached_types == types:
+                    return tp
+            tp = graphql.GraphQLNonNull(
+                graphql.GraphQLUnionType(name, types, description=description)
+            )
+            self._cache_by_name[key] = (tp, types)  # type: ignore
+            return tp
 
         return TypeFactory(factory)
 
